@@ -672,6 +672,32 @@ def mc_iter(ctx):
         ctx.cov["mc_iter"]["negative_control"] = "without the leaf contract TLC refutes " + neg.violated
 
 
+def apalache_iter(ctx):
+    """Unbounded complement of MC_Iter: Apalache discharges an inductive invariant of the Matches iterator for EVERY text length
+    (integers only): items ordered / non-overlapping / strictly increasing, plus the progress action invariant (termination)."""
+    d = os.path.join(common.WORK, "apalache")
+    os.makedirs(d, exist_ok=True)
+    spec = os.path.join(common.SPEC, "apalache")
+    obligations = [("base", ["--init=Init", "--inv=IndInv", "--length=0", "ApaIter.tla"], "OK"),
+                   ("step", ["--init=IndInit", "--inv=IndInv", "--length=1", "ApaIter.tla"], "OK"),
+                   ("progress", ["--init=IndInit", "--inv=Progress", "--length=1", "ApaIter.tla"], "OK"),
+                   ("negative_control_without_leaf_contract", ["--init=IndInit", "--inv=IndInv", "--length=1", "ApaIterNeg.tla"], "ERROR (12)")]
+    done = {}
+    for name, args, want in obligations:
+        p = common.sh(["apalache-mc", "check", "--cinit=ConstInit", "--out-dir=" + d, "--write-intermediate=false"] + args, cwd=spec, timeout=900)
+        m = [l for l in p.stdout.splitlines() if l.startswith("EXITCODE:")]
+        got = m[-1].split("EXITCODE:")[1].strip() if m else "none"
+        if got != want:
+            if want == "OK" and got.startswith("ERROR (12)"):
+                ctx.violation("Apalache refutes the inductive invariant of the iterator model (%s)" % name, dict(kind="mc", instance="ApaIter." + name, tlc_tail=p.stdout[-3000:]))
+            else:
+                raise ToolError("apalache %s: expected %s, got %s\n%s" % (name, want, got, p.stdout[-1500:]))
+        done[name] = got
+    ctx.cov["apalache_iter"] = dict(obligations=done, note="inductive invariant IndInv (base + step) and action invariant Progress hold for every N; integers only")
+    import shutil
+    shutil.rmtree(d, ignore_errors=True)
+
+
 def iter_spaces(ctx, part):
     t3 = texts("sig6", 3)
     small = []
@@ -866,6 +892,7 @@ def c08(ctx):
                 "(exhaustive to the node bound), contexts x fillers, random; error histories under backtrack limits 0..5; "
                 "non-trivial = texts with at least one yielded item (counted by TLC); model: MC_Iter for every leaf behaviour")
     mc_iter(ctx)
+    apalache_iter(ctx)
     spaces = iter_spaces(ctx, "fi")
     for name, recs, tpath in spaces:
         iterp.run_iters(ctx, name, recs, tpath, "fi", excl)
